@@ -107,12 +107,13 @@ def _pin(k, order=None):
         pass
 
 
-def pmap(fn, items, jobs=None, chunk=8, wall_per_chunk=600, budget_s=None):
+def pmap(fn, items, jobs=None, chunk=8, wall_per_chunk=600, budget_s=None, min_items=0, hard_budget_s=None):
     """Map fn over items in forked workers; results come back in item order.  Worker w handles
     chunks w, w+jobs, w+2*jobs, ... and streams (chunk index, results) to a private file.  A
     dead or hung worker is a harness failure (WorkerDied), never a silent success.  With
     budget_s, workers stop starting new chunks once the budget is spent and the longest
-    complete prefix of results is returned.  (Plain fork instead of concurrent.futures: its
+    complete prefix of results is returned; the first min_items items are done even past the
+    budget (a busy machine must not shrink a check to nothing), up to hard_budget_s.  (Plain fork instead of concurrent.futures: its
     workers ran this code 3-4x slower here, dominated by mmap/munmap churn.)"""
     import pickle
     import shutil
@@ -128,10 +129,13 @@ def pmap(fn, items, jobs=None, chunk=8, wall_per_chunk=600, budget_s=None):
     if jobs <= 1:
         out = []
         for c in chunks:
-            if budget_s is not None and time.monotonic() - t0 > budget_s:
+            if budget_s is not None and time.monotonic() - t0 > budget_s and (
+                    len(out) >= min_items or time.monotonic() - t0 > (hard_budget_s or budget_s)):
                 break
             out.extend(_chunk_entry((fn, c, wall_per_chunk)))
         return out
+    min_chunks = (min_items + chunk - 1) // chunk
+    hard = hard_budget_s if hard_budget_s is not None else (budget_s or 0)
     tmpdir = tempfile.mkdtemp(prefix='verif-pmap-')
     pids = {}
     sys.stdout.flush()
@@ -147,7 +151,8 @@ def pmap(fn, items, jobs=None, chunk=8, wall_per_chunk=600, budget_s=None):
                     with open(os.path.join(tmpdir, 'w%d' % w), 'wb') as f:
                         for ci in range(w, len(chunks), jobs):
                             if budget_s is not None and time.monotonic() - t0 > budget_s:
-                                break
+                                if ci >= min_chunks or time.monotonic() - t0 > hard:
+                                    break
                             res = _chunk_entry((fn, chunks[ci], wall_per_chunk))
                             pickle.dump((ci, res), f)
                             f.flush()
@@ -161,7 +166,7 @@ def pmap(fn, items, jobs=None, chunk=8, wall_per_chunk=600, budget_s=None):
                     os._exit(code)
             pids[pid] = w
         per_worker = (len(chunks) + jobs - 1) // jobs
-        limit = (budget_s + wall_per_chunk if budget_s is not None else per_worker * wall_per_chunk) + 30
+        limit = (max(budget_s, hard) + wall_per_chunk if budget_s is not None else per_worker * wall_per_chunk) + 30
         remaining = dict(pids)
         while remaining:
             for pid in list(remaining):
